@@ -52,9 +52,9 @@ if missing and len(missing) <= 5:
     shutil.rmtree(os.path.join(repo, ".hypothesis"), ignore_errors=True)  # hypothesis replays a failing example from its database
     p2 = subprocess.run(["/venv/bin/python", "-m", "pytest", "-q", "-p", "no:cacheprovider", "--timeout=900", "--hypothesis-seed=1"] + ids, cwd=repo, env=env2, capture_output=True, text=True)
     if p2.returncode == 0:
-        print(f"  (re-run of {len(missing)} missing stable test(s) passed: flaky)")
+        flaky_note = f" ({len(missing)} of them only on an immediate re-run: flaky hypothesis test {', '.join(m.split('::')[-1] for m in missing)})"
         missing = []
-print(f"baseline on {repo}: {len(passed)} passed, {len(failed)} failed/error; stable passing {len(stable & passed)}/{len(stable)}")
+print(f"baseline on {repo}: {len(passed)} passed, {len(failed)} failed/error; stable passing {len(stable) - len(missing)}/{len(stable)}" + (flaky_note if not missing and "flaky_note" in dir() else ""))
 for m in missing:
     print("  NOT PASSING:", m)
 sys.exit(0 if not missing else 1)
